@@ -16,7 +16,7 @@ ID = "C09"
 LEVEL = "exploration"
 DECIDING = ["C09.full_array", "C09.position_index", "C09.quaternion_index", "C09.decomposition"]
 RULE = ("random full grids over all direction x rotation algorithm combinations (incl. zero grids and bare numbers), n_b in 1..20, n_o in 1..45, "
-        "n_t in 1..5 with unsorted radial input, also radii with 7+ decimals; for each grid: the array, both index helpers with None / all / random subsets (repeats, unsorted; returned arrays modified in place by the caller in half of the cases), "
+        "n_t in 1..5 with unsorted radial input, also radii with 7+ decimals; 80-300 directions x 6-30 layers of radii with 6-10 decimals; every n_b from 1 to 128 (thorough 400) plus 8 (32) sampled up to 256 (700) for the two index helpers over all rows and over the multiples of n_b; for each grid: the array, both index helpers with None / all / random subsets (repeats, unsorted; returned arrays modified in place by the caller in half of the cases), "
         "and the decomposition. Non-trivial = n_b>=2 and n_o>=2 and n_t>=2; distinct by (b name, o name, radial text)")
 ASSUMPTIONS = ["quaternion columns compared bit-exactly, positions at 1e-12 relative, decomposition at 1e-8 (the code rounds to 8 decimals)",
                "radii are re-read from the text by the harness' own exact reader"]
@@ -196,9 +196,57 @@ def drive(fullgrid, b, o, t, rng):
         REC.crashed("C09.call_raised", e)
 
 
+def drive_index_sweep(fullgrid, n_b, rng):
+    """the index helpers for one n_b, over every row (the row count and n_b are the only inputs of the two helpers, so every n_b up to a
+    bound is visited instead of sampled: arithmetic shortcuts such as multiplying by 1/n_b go wrong only for particular n_b)"""
+    b, o, t = f"randomQ_{n_b}", rng.choice(["ico_12", "cube3D_9", "13"]), rng.choice(["[0.1, 0.2, 0.3]", "(0.25, 0.15, 0.4, 0.3)"])
+    REC.begin_case({"b": b, "o": o, "t": t, "index_sweep": True}, cls=["index_sweep"], sample=(rng.random() < 0.02))
+    try:
+        fg = fullgrid.FullGrid(b, o, t)
+        n = len(fg.get_full_grid_as_array())
+        fg.get_position_index()
+        fg.get_quaternion_index()
+        rows = np.arange(n)
+        fg.get_position_index(rows)
+        fg.get_quaternion_index(rows.tolist() if rng.random() < 0.3 else rows)
+        multiples = np.arange(0, n, n_b)[::-1]
+        fg.get_position_index(multiples)
+        fg.get_quaternion_index(multiples)
+        if n_b >= 2:
+            REC.nontrivial_case((b, o, t))
+    except Exception as e:
+        REC.crashed("C09.call_raised", e)
+
+
+def drive_many_layers(fullgrid, rng):
+    """many directions x many layers whose radii have more decimals than the 8 the decomposition rounds to"""
+    n_o = rng.choice([80, 100, 120, 162, 200, 300])
+    T = rng.randint(6, 30)
+    a = rng.randint(5, 60) / 100
+    if rng.random() < 0.5:
+        t = f"linspace({a}, {a + rng.randint(3, 14) / 7:.6f}, {T})"
+    else:
+        vals = sorted({round(a + 1.5 * rng.random(), 10) for _ in range(T)})
+        t = "[" + ", ".join(repr(v) for v in vals) + "]"
+    b = rng.choice(["cube4D_8", "randomQ_3", "1", "zero"])
+    o = rng.choice([f"ico_{n_o}", f"cube3D_{n_o}", f"randomS_{n_o}"])
+    drive(fullgrid, b, o, t, rng)
+
+
+# building the rotation grid costs ~4e-4 * n_b^2 s, so the complete sweep stops at SWEEP_MAX and larger n_b are sampled
+SWEEP_MAX = {"quick": 128, "thorough": 400}
+SWEEP_SAMPLE = {"quick": (129, 256, 1), "thorough": (401, 700, 2)}
+
+
 def shards(tier, seed):
     n, per = (8, 15) if tier == "quick" else (16, 150)
-    return [{"rseed": seed * 1000 + i, "count": per} for i in range(n)]
+    out = [{"rseed": seed * 1000 + i, "count": per, "layers": 2 if tier == "quick" else 12} for i in range(n)]
+    k = 8 if tier == "quick" else 16
+    lo, hi, cnt = SWEEP_SAMPLE[tier]
+    pick = random.Random(seed * 77 + 5)
+    out += [{"rseed": seed * 1000 + 500 + i, "sweep": [i + 1, SWEEP_MAX[tier] + 1, k], "extra": [pick.randint(lo, hi) for _ in range(cnt)]}
+            for i in range(k)]
+    return out
 
 
 def run_shard(spec):
@@ -207,6 +255,12 @@ def run_shard(spec):
     from vlib.props import c07
     c07.install()  # cross-cutting: every grid built here is also judged by the C07 monitors
     rng = random.Random(spec["rseed"])
+    if "sweep" in spec:
+        for n_b in list(range(*spec["sweep"])) + spec.get("extra", []):
+            drive_index_sweep(fullgrid, n_b, rng)
+        return
+    for it in range(spec.get("layers", 0)):
+        drive_many_layers(fullgrid, rng)
     for it in range(spec["count"]):
         nb = rng.choice([1, 1, 2, 3, 4, 5, 8, 9, 13, 20, rng.randint(1, 20)])
         no = rng.choice([1, 2, 3, 4, 7, 12, 13, 42, 45, rng.randint(1, 45)])
@@ -218,4 +272,6 @@ def run_shard(spec):
 
 def replay(case):
     fullgrid = install()
+    if case.get("index_sweep"):
+        return drive_index_sweep(fullgrid, int(case["b"].split("_")[1]), random.Random(0))
     drive(fullgrid, case["b"], case["o"], case["t"], random.Random(0))
